@@ -95,7 +95,7 @@ CHECKS["C05"] = {"pkg": "ipamsim", "test": "TestC05", "level": "fault_enumeratio
 CHECKS["C07"] = hist("TestC07", "rapid draws topologies, 1-3 deployments sharing named pools that have a Pool object of size 0-4, pods with unique names "
     "(deployment pods never reuse a name), and histories whose concurrent episodes run 2-3 of: Filter of different pods, schedule, "
     "POST /v1/pool with preAllocateIP, pool size update, unbind - interleaved by the cooperative scheduler at every lister/IPAM/API call; "
-    "a quarter of the histories carry one failing API-server call (internal/conflict/timeout) of one operation. "
+    "a quarter of the histories carry one failing API-server call (internal/conflict/timeout/already-exists) of one operation; the pod cache lags in a third of the cases. "
     "Oracle after every op and every scheduler step: #IPs keyed under pool__<name>_ <= max(count when the op/episode started, largest "
     "size in force in truth or lister during it, or since the successful filter of a pod of the pool whose bind is still to come - a scheduling attempt is filter + bind, and a pool without Pool object is capped by replicas, not by a size). Non-trivial = an episode in which >= 2 ops overlapped; distinct by SHA-1 of the case.",
     quick=5000, thorough=120000, floors={"episode_overlapped": 0.2, "pre_allocation": 0.1}, enum=True)
